@@ -31,6 +31,9 @@ Tol == [ closed   |-> [sl |-> 5,     bal |-> 100,     jump |-> 200,     int |-> 
          ehep     |-> [sl |-> 5,     bal |-> 100,     jump |-> 2000,    int |-> 2000,    field |-> 2000],
          (* general-EOS Riemann solver, 2001-point tables: shocks smeared over one cell, fans from an ODE table *)
          geos     |-> [sl |-> 2000,  bal |-> 500000,  jump |-> 500000,  int |-> 500000,  field |-> 500000],
+         (* RMTV: one ODE integration per point (rtol 4e-10); differences of those: mass / momentum 2e-7, energy with the  *)
+         (* conduction term (a second difference) 1.3e-5; isothermal shock 5e-9                                        *)
+         rmtv     |-> [sl |-> 20,    bal |-> 20000,   jump |-> 1000,    int |-> 100000,  field |-> 20000],
          sedov    |-> [sl |-> 20,    bal |-> 3000000, jump |-> 1000,    int |-> 50000,   field |-> 100000] ]
 
 (* ---- equation of state (C03) --------------------------------------- *)
